@@ -381,7 +381,29 @@ def r3d(ctx: Ctx) -> list[Ob]:
         else:
             out.append(viol("R3d", g.qualname, "gather:recursive", "fold settings of sub-modules are not gathered", loc))
     if not gathered:
-        out.append(unres("R3d", g.qualname, "gather", "no nested settings-gathering function found", g.loc))
+        # no generic recursion: then every class that has sub-modules must put the sub-module's own
+        # settings into its key itself (the folder rebuilds the sub-module from the first one's config)
+        n_sub = 0
+        for c in ctx.repo.subclasses(tl):
+            if not ctx.repo.is_concrete(c):
+                continue
+            subs = ctx.cf.dict_property(c, "sub_modules")
+            names = [is_self_attr(v[0]) if isinstance(v, tuple) else is_self_attr(v) for v in subs.items.values()] if subs.items else []
+            names = [n for n in names if n]
+            if not names:
+                continue
+            n_sub += 1
+            fs = ctx.repo.lookup(c, "fold_settings")
+            txt = unparse(fs.node) if fs is not None else ""
+            for a in names:
+                full = f"self.{a}.fold_settings" in txt
+                cfg = f"self.{a}.config" in txt
+                if full or cfg:
+                    out.append(ok("R3d", c.qualname, f"sub-settings:{a}", "the class keys on the sub-module's own settings", fs.loc if fs else c.loc))
+                else:
+                    out.append(viol("R3d", c.qualname, f"sub-settings:{a}", f"neither group_foldable_modules gathers the settings of sub-modules nor does {c.name}.fold_settings contain self.{a}.fold_settings / self.{a}.config: layers wrapping sub-modules with different hyper-parameters are folded together and the folder rebuilds the sub-module from the first one's config", fs.loc if fs else c.loc))
+        if n_sub == 0:
+            out.append(unres("R3d", g.qualname, "gather", "no nested settings-gathering function found and no class with sub-modules", g.loc))
     # (d) parameter ops: fold_settings == config.items(), no subclass narrows it
     pn = ctx.repo.cls(T_PNODE)
     f = pn.methods.get("fold_settings")
